@@ -75,6 +75,8 @@ def run_tlc(module, cfg_text, workdir, *, extra_modules=None, workers=16, env=No
     if not deadlock:
         cmd += ['-deadlock']
     cmd += list(args)
+    if os.environ.get('VERIF_COVERAGE') and '-coverage' not in args:
+        cmd += ['-coverage', '1']           # audit mode: per-action counts end up in the evidence notes
     cmd += [module]
     e = dict(os.environ)
     e.update(env or {})
@@ -118,6 +120,7 @@ def run_tlc(module, cfg_text, workdir, *, extra_modules=None, workers=16, env=No
     r = parse_output(p.stdout)
     r.records = records
     r.garbled = garbled
+    r.module = module
     r.wall = time.time() - t0
     r.returncode = p.returncode
     fatal = None
